@@ -116,6 +116,10 @@ func (q *rpcQueue) Pop(ctx context.Context) (*RPC, error) {
 		// Wake up all the waiting routines. The only routine that correponds
 		// to this Pop call will return from the function. Note that this can
 		// be expensive, if there are too many waiting routines.
+		// Hold the lock so the broadcast cannot land between the context
+		// check and the Wait below, where it would be lost.
+		q.queueMu.Lock()
+		defer q.queueMu.Unlock()
 		q.dataAvailable.Broadcast()
 	})
 	defer unregisterAfterFunc()
